@@ -9,6 +9,7 @@ import GocoinV.Proofs.C19Reopen
 import GocoinV.Proofs.C19Run
 import GocoinV.Proofs.C19Crash
 import GocoinV.Proofs.C19Run2
+import GocoinV.Proofs.C19Run3
 import GocoinV.Gen.QdbFacts
 namespace GocoinV.Props.C19
 open GocoinV GocoinV.Qdb GocoinV.QdbSpec GocoinV.Proofs.C19
@@ -156,77 +157,77 @@ theorem reopen_after_close_identity_partial (db : DB) (h : Cached db) (hwf : Ind
     rw [hc.1, hc.2]
     exact ⟨o2, o3⟩
 
-/-- Reopen identity, every history of a non-volatile store (snapshot AND log path). Start on an empty
-    directory (any LoadData / options), run ANY sequence of Put / PutExt / Del / Get / Browse / ApplyFlags /
-    Defrag / Sync / NoSync that never sets NO_CACHE — with all the automatic syncs and forced defrags the
-    thresholds cause — under the side conditions `RunFits` (keys are 64-bit, flags 32-bit, the data file stays
-    below 4 GiB); then Close and NewDBExt(LoadData) in any mode: the store opens without failure and every key
-    has exactly the value the in-memory map `mrun [] ops` gives it (absent keys are absent).
-    The proof carries the invariant `DiskInv` ("snapshot + log entries describe every key that is not pending,
-    its bytes are where the index says, data files only grow") through every operation and replays
-    `loadneweridx` / `loaddat` / `loadlog` / `cleanupold` / `load` on the final directory. -/
-theorem reopen_after_close_identity_nonvolatile_partial (load : Bool) (opts : Opts) (ops : List Op)
-    (ok : ∀ op ∈ ops, OpOK op) (fits : RunFits (openDB {} false load opts) ops)
-    (hsz : SizeOK (run (openDB {} false load opts) ops)) (vol' : Bool) (opts' : Opts) :
-    (run (openDB {} false load opts) (ops ++ [.reopen vol' true opts'])).failed = none ∧
-    ∀ k, mget (absv (run (openDB {} false load opts) (ops ++ [.reopen vol' true opts']))) k = mget (mrun [] ops) k := by
-  have inv0 := fresh_inv load opts
-  have inv := run_inv ops _ inv0 ok fits
-  obtain ⟨hc, habs⟩ := run_cached ops _ inv0.cached ok
-  have habs0 : absv (openDB {} false load opts) = [] := by cases load <;> rfl
-  rw [habs0] at habs
-  obtain ⟨sinv, sabs, spe, _⟩ := sync_inv _ inv hsz
-  obtain ⟨o1, o2⟩ := open_of_inv _ sinv spe vol' opts'
-  have hclose : (close (run (openDB {} false load opts) ops)).failed = none ∧
-      (close (run (openDB {} false load opts) ops)).fs = (sync (run (openDB {} false load opts) ops)).fs := by
-    unfold close
-    rw [if_neg (notFailed hc)]
-    simp only [inv.nv, Bool.false_eq_true, ↓reduceIte, sinv.cached.1]
-    exact ⟨trivial, trivial⟩
-  have hrun : run (openDB {} false load opts) (ops ++ [.reopen vol' true opts']) =
-      step (run (openDB {} false load opts) ops) (.reopen vol' true opts') := by
-    simp [run, List.foldl_append]
-  rw [hrun]
-  show (match (close (run (openDB {} false load opts) ops)).failed with
-      | some _ => close (run (openDB {} false load opts) ops)
-      | none => { openDB (close (run (openDB {} false load opts) ops)).fs vol' true opts' with
-                  effs := (close (run (openDB {} false load opts) ops)).effs ++
-                    (openDB (close (run (openDB {} false load opts) ops)).fs vol' true opts').effs }).failed = none ∧
-      ∀ k, mget (absv (match (close (run (openDB {} false load opts) ops)).failed with
-      | some _ => close (run (openDB {} false load opts) ops)
-      | none => { openDB (close (run (openDB {} false load opts) ops)).fs vol' true opts' with
-                  effs := (close (run (openDB {} false load opts) ops)).effs ++
-                    (openDB (close (run (openDB {} false load opts) ops)).fs vol' true opts').effs })) k = _
-  rw [hclose.1, hclose.2]
-  refine ⟨o1, ?_⟩
-  intro k
-  have hm : ∀ d : DB, mget (absv d) k = (ilookup k d.index).map valOf := by
-    intro d
-    unfold mget
-    rw [ilookup_absv, Option.map_map]
-    rfl
-  show mget (absv (openDB (sync (run (openDB {} false load opts) ops)).fs vol' true opts')) k = _
-  rw [hm, o2 k, ← hm, sabs, habs]
+/-- Refinement at the level of values, for EVERY history of the extended sub-language. Start on an empty directory
+    (non-volatile, any LoadData / options) and run ANY sequence of Put / PutExt / Del / Get / Browse / ApplyFlags /
+    Defrag / Sync / NoSync that never sets NO_CACHE AND of Close + NewDBExt(non-volatile, LoadData, any options) —
+    with all the automatic syncs and forced defrags the thresholds cause — under the side conditions `RunFits2`
+    (keys are 64-bit, flags 32-bit, the data file stays below 4 GiB, data-file sequence numbers do not wrap).
+    Then the store never fails (no os.Exit, no panic, every reopen succeeds), `Get k` returns, for every key,
+    exactly what the in-memory map holds (`vrun`: only Put / PutExt / Del change it; a reopen changes nothing;
+    it is the value-level view of the list-level map `mrun`), and `Count` is the number of keys of that map.
+    The proof carries two invariants through every operation and re-establishes them after every reopen:
+    "snapshot + log entries describe every key that is not pending, its bytes are where the index says, data files
+    only grow", and "the other index slot is not a valid snapshot / holds the previous one; nothing on disk refers
+    to a data-file number above the current one". -/
+theorem qdb_refines_map_values_partial (load : Bool) (opts : Opts) (ops : List Op)
+    (ok : ∀ op ∈ ops, OpOK2 op) (fits : RunFits2 (openDB {} false load opts) ops) :
+    (run (openDB {} false load opts) ops).failed = none ∧
+    (∀ k, (Qdb.get (run (openDB {} false load opts) ops) k).2 = vrun (fun _ => none) ops k) ∧
+    (∀ k, mget (mrun [] ops) k = vrun (fun _ => none) ops k) ∧
+    count (run (openDB {} false load opts) ops) = mcount (mrun [] ops) := by
+  obtain ⟨h3, hv⟩ := run_inv3' ops _ (fresh_inv3 load opts) ok fits
+  have hv0 : vals (openDB {} false load opts) = fun _ => none := by
+    funext k; cases load <;> rfl
+  rw [hv0] at hv
+  obtain ⟨mnd, mv⟩ := mrun_vals ops [] (by simp [Keys])
+  have mv' : ∀ k, mget (mrun [] ops) k = vrun (fun _ => none) ops k := mv
+  refine ⟨h3.inv.cached.1, fun k => ?_, mv', ?_⟩
+  · rw [(get_cached _ k h3.inv.cached).2.2]
+    exact hv k
+  · -- Count: the index and the map have distinct keys and the same key set
+    unfold count mcount
+    apply length_eq_of_same_keys _ _ h3.inv.nodup mnd
+    intro k
+    have h1 := hv k
+    rw [vals_eq] at h1
+    have h2 := mv' k
+    unfold mget at h2
+    have e1 : (ilookup k (run (openDB {} false load opts) ops).index).isSome =
+        (vrun (fun _ => none) ops k).isSome := by rw [← h1]; simp
+    have e2 : (ilookup k (mrun [] ops)).isSome = (vrun (fun _ => none) ops k).isSome := by rw [← h2]; simp
+    rw [e1, e2]
 
-/-- non-vacuity of reopen_after_close_identity_nonvolatile_partial: automatic sync at every change (MaxPending 0),
-    overwrite, delete, forced defrag, then more changes -/
+/-- Reopen identity, every history (snapshot AND log path): after any history as above, Close + NewDBExt
+    (non-volatile, LoadData, any options) leaves every key with exactly the value it had. -/
+theorem reopen_after_close_identity_nonvolatile_partial (load : Bool) (opts : Opts) (ops : List Op)
+    (ok : ∀ op ∈ ops, OpOK2 op) (fits : RunFits2 (openDB {} false load opts) ops) (opts' : Opts)
+    (hfit : OpFits2 (run (openDB {} false load opts) ops) (.reopen false true opts')) :
+    (step (run (openDB {} false load opts) ops) (.reopen false true opts')).failed = none ∧
+    ∀ k, vals (step (run (openDB {} false load opts) ops) (.reopen false true opts')) k =
+         vals (run (openDB {} false load opts) ops) k := by
+  obtain ⟨h3, _⟩ := run_inv3' ops _ (fresh_inv3 load opts) ok fits
+  obtain ⟨a, b⟩ := reopen_inv3 _ h3 opts' hfit.1 hfit.2
+  exact ⟨a.inv.cached.1, b⟩
+
+/-- non-vacuity: automatic sync at every change (MaxPending 0), overwrite, delete, forced defrag, a reopen in the
+    middle, more changes, a second reopen -/
 example :
-    let ops := [Op.put 1 [1, 2], .put 2 [], .put 1 [9], .del 2, .defrag true, .putExt 3 [7] NO_BROWSE, .sync]
-    (∀ op ∈ ops, OpOK op) ∧ RunFits (openDB {} false true { maxPending := 0 }) ops ∧
-    SizeOK (run (openDB {} false true { maxPending := 0 }) ops) := by
-  refine ⟨?_, ?_, ?_⟩
+    let ops := [Op.put 1 [1, 2], .put 2 [], .put 1 [9], .del 2, .defrag true, .reopen false true {},
+                .putExt 3 [7] NO_BROWSE, .sync, .reopen false true { maxPending := 0 }, .put 2 [4]]
+    (∀ op ∈ ops, OpOK2 op) ∧ RunFits2 (openDB {} false true { maxPending := 0 }) ops := by
+  refine ⟨?_, ?_⟩
   · intro op hop
     simp only [List.mem_cons, List.not_mem_nil, or_false] at hop
-    rcases hop with rfl | rfl | rfl | rfl | rfl | rfl | rfl <;> simp [OpOK] <;> decide
-  · simp only [RunFits, OpFits, SizeOK]
-    decide
-  · simp only [SizeOK]
+    rcases hop with rfl | rfl | rfl | rfl | rfl | rfl | rfl | rfl | rfl | rfl <;> simp [OpOK2, OpOK] <;> decide
+  · simp only [RunFits2, OpFits2, OpFits, SizeOK]
     decide
 
--- OPEN: reopen_after_close_identity in full: (i) Count / Browse-as-a-set after the reopen (needs: two association
---   lists with distinct keys and equal lookups have equal length); (ii) a second reopen in the same history (needs:
---   the invariant holds again for the opened store — open's own removals do not change what open computes);
---   (iii) volatile stores without unsaved changes, stores with NO_CACHE / not-loaded records (LoadData = false).
+-- OPEN: qdb_refines_map / reopen_after_close_identity in full: (i) Browse-as-a-set after a reopen (which flags
+--   survive a reopen is decided by what was persisted; before the first reopen Browse is covered by
+--   qdb_refines_map_partial); (ii) volatile stores across a reopen when nothing was changed;
+--   (iii) NO_CACHE records and LoadData = false (values are read back lazily from the data files). These are
+--   covered by the correspondence run only.
+
 /-- Durability across a crash anywhere inside sync() / Close. Take any reachable state of a non-volatile store
     (empty directory, any cached-sub-language history, side conditions as above) with pending changes. sync()
     performs the file operations `syncEffs db`: [create <seq>.dat, write its header,] one Write per pending
@@ -239,7 +240,7 @@ example :
         the in-memory map (all pending changes became durable together);
     (c) the directory after the last operation is the one the model continues with. -/
 theorem qdb_durable_sync_partial (load : Bool) (opts : Opts) (ops : List Op)
-    (ok : ∀ op ∈ ops, OpOK op) (fits : RunFits (openDB {} false load opts) ops)
+    (ok : ∀ op ∈ ops, OpOK2 op) (fits : RunFits2 (openDB {} false load opts) ops)
     (hsz : SizeOK (run (openDB {} false load opts) ops))
     (hp : (run (openDB {} false load opts) ops).pending.isEmpty = false) (vol' : Bool) (opts' : Opts) :
     let db := run (openDB {} false load opts) ops
@@ -248,15 +249,16 @@ theorem qdb_durable_sync_partial (load : Bool) (opts : Opts) (ops : List Op)
       ∀ k, (ilookup k (openDB (db.fs.applyAll ((syncEffs db).take n)) vol' true opts').index).map valOf =
            (ilookup k (openDB db.fs vol' true opts').index).map valOf) ∧
     ((openDB (db.fs.applyAll (syncEffs db)) vol' true opts').failed = none ∧
-      ∀ k, (ilookup k (openDB (db.fs.applyAll (syncEffs db)) vol' true opts').index).map valOf = mget (mrun [] ops) k) ∧
+      ∀ k, (ilookup k (openDB (db.fs.applyAll (syncEffs db)) vol' true opts').index).map valOf =
+           vrun (fun _ => none) ops k) ∧
     (∃ L, sync db = (if L.extra > L.opts.forcedPerc * L.need / 100 then defrag L else L) ∧
       L.fs = db.fs.applyAll (syncEffs db)) := by
   intro db
-  have inv0 := fresh_inv load opts
-  have inv : DiskInv db := run_inv ops _ inv0 ok fits
-  obtain ⟨hc, habs⟩ := run_cached ops _ inv0.cached ok
-  have habs0 : absv (openDB {} false load opts) = [] := by cases load <;> rfl
-  rw [habs0] at habs
+  obtain ⟨h3, hv⟩ := run_inv3' ops _ (fresh_inv3 load opts) ok fits
+  have hv0 : vals (openDB {} false load opts) = fun _ => none := by
+    funext k; cases load <;> rfl
+  rw [hv0] at hv
+  have inv : DiskInv db := h3.inv
   have hR0 : DirReadable db.fs := fun kr hkr => ⟨inv.dflags kr hkr, inv.dreads kr hkr⟩
   obtain ⟨_, hold⟩ := open_readable db.fs hR0 vol' opts'
   obtain ⟨L, hL, invL, absL, pL, _, _, _, hfsL, _⟩ := sync_logWritten db inv hp hsz.1
@@ -269,25 +271,23 @@ theorem qdb_durable_sync_partial (load : Bool) (opts : Opts) (ops : List Op)
   · rw [← hfsL]
     obtain ⟨o1, o2⟩ := open_of_inv L invL pL vol' opts'
     refine ⟨o1, fun k => ?_⟩
-    have hm : ∀ d : DB, mget (absv d) k = (ilookup k d.index).map valOf := by
-      intro d
-      unfold mget
-      rw [ilookup_absv, Option.map_map]
-      rfl
-    rw [o2 k, ← hm, absL, habs]
+    rw [o2 k, ← vals_eq, ← hv k]
+    unfold vals
+    rw [absL]
 
-/-- non-vacuity of qdb_durable_sync_partial: default thresholds, a sync in the middle, then three pending
-    changes (put, overwrite, delete of a synced key); sync() then has 3 file operations (two data writes, one log write) -/
+/-- non-vacuity of qdb_durable_sync_partial: default thresholds, a sync and a reopen in the middle, then three
+    pending changes (put, overwrite, delete of a synced key); sync() then has 5 file operations (new data file and
+    its header, two data writes, one log write) -/
 example :
-    let ops := [Op.put 1 [1, 2], .put 2 [5], .sync, .put 3 [], .put 1 [9, 9, 9], .del 2]
+    let ops := [Op.put 1 [1, 2], .put 2 [5], .sync, .reopen false true {}, .put 3 [], .put 1 [9, 9, 9], .del 2]
     let db := run (openDB {} false true {}) ops
-    (∀ op ∈ ops, OpOK op) ∧ RunFits (openDB {} false true {}) ops ∧ SizeOK db ∧ db.pending.isEmpty = false ∧
-    (syncEffs db).length = 3 := by
+    (∀ op ∈ ops, OpOK2 op) ∧ RunFits2 (openDB {} false true {}) ops ∧ SizeOK db ∧ db.pending.isEmpty = false ∧
+    (syncEffs db).length = 5 := by
   refine ⟨?_, ?_, ?_, ?_, ?_⟩
   · intro op hop
     simp only [List.mem_cons, List.not_mem_nil, or_false] at hop
-    rcases hop with rfl | rfl | rfl | rfl | rfl | rfl <;> simp [OpOK]
-  · simp only [RunFits, OpFits, SizeOK]
+    rcases hop with rfl | rfl | rfl | rfl | rfl | rfl | rfl <;> simp [OpOK2, OpOK]
+  · simp only [RunFits2, OpFits2, OpFits, SizeOK]
     decide
   · simp only [SizeOK]
     decide
@@ -305,7 +305,7 @@ example :
     defrag() — the last synced values — or the complete in-memory content. Never a mixture, never a value that
     was not written. -/
 theorem qdb_durable_defrag_partial (load : Bool) (opts : Opts) (ops : List Op)
-    (ok : ∀ op ∈ ops, OpOK op) (fits : RunFits (openDB {} false load opts) ops)
+    (ok : ∀ op ∈ ops, OpOK2 op) (fits : RunFits2 (openDB {} false load opts) ops)
     (hsz : SizeOK (run (openDB {} false load opts) ops))
     (hseq : (run (openDB {} false load opts) ops).dataSeq + 1 < 2^32)
     (hsmall : 16 + 24 * (run (openDB {} false load opts) ops).index.length ≤ bufSize)
@@ -316,12 +316,12 @@ theorem qdb_durable_defrag_partial (load : Bool) (opts : Opts) (ops : List Op)
       ((∀ k, (ilookup k (openDB (db.fs.applyAll ((es.map (·.2)).take n)) vol' true opts').index).map valOf =
              (ilookup k (openDB db.fs vol' true opts').index).map valOf) ∨
        (∀ k, (ilookup k (openDB (db.fs.applyAll ((es.map (·.2)).take n)) vol' true opts').index).map valOf =
-             mget (mrun [] ops) k)) := by
+             vrun (fun _ => none) ops k)) := by
   intro db
-  have h3 : Inv3 db := run_inv3 ops _ (fresh_inv3 load opts) ok fits
-  obtain ⟨hc, habs⟩ := run_cached ops _ (fresh_inv load opts).cached ok
-  have habs0 : absv (openDB {} false load opts) = [] := by cases load <;> rfl
-  rw [habs0] at habs
+  obtain ⟨h3, hv⟩ := run_inv3' ops _ (fresh_inv3 load opts) ok fits
+  have hv0 : vals (openDB {} false load opts) = fun _ => none := by
+    funext k; cases load <;> rfl
+  rw [hv0] at hv
   have hready : DefragReady db := defragReady_of_inv3 db h3 hsz hseq (by
     rw [snapBytes_length, layout_length]; exact hsmall)
   obtain ⟨es, he, hall⟩ := defrag_prefix db hready
@@ -332,18 +332,14 @@ theorem qdb_durable_defrag_partial (load : Bool) (opts : Opts) (ops : List Op)
   refine ⟨o1, ?_⟩
   rcases hV with hV | hV
   · exact Or.inl (fun k => by rw [o2 k, hV k, ← hold k])
-  · refine Or.inr (fun k => ?_)
-    have hm : mget (absv db) k = (ilookup k db.index).map valOf := by
-      unfold mget
-      rw [ilookup_absv, Option.map_map]
-      rfl
-    rw [o2 k, hV k, ← hm, habs]
+  · exact Or.inr (fun k => by rw [o2 k, hV k, ← vals_eq, hv k])
 
 -- OPEN: qdb_durable in full — what is still missing for the statement of DESIGN §6: (i) index snapshots larger
 --   than the bufio buffer (a chunk boundary could in principle fall so that a prefix of the snapshot ends in bytes
 --   that look like the FFFFFFFF-seq-FINI trailer — see the report); (ii) volatile stores, NO_CACHE / not-loaded
---   records; (iii) histories that already contain a crash or a reopen (needs the invariants re-established for
---   the opened store); (iv) crashes inside NewDBExt's own clean-up. These are covered by the harness only.
+--   records; (iii) histories that already contain a CRASH (the invariants are re-established after a regular reopen,
+--   not yet after the reopen of a crash directory); (iv) crashes inside NewDBExt's own clean-up. These are covered
+--   by the harness only.
 
 /-- non-vacuity of reopen_after_close_identity_partial: a two-record store -/
 example : IndexWF [(1, (newRec [1, 2, 3] 0)), (2 ^ 64 - 1, (newRec [] NO_BROWSE))] := by
